@@ -16,6 +16,7 @@ package tr
 //                                                   match CALL with Some P => STMT | None => None end
 //                                                   (the caller is partial too)
 //   x, err := f(..); if err != nil { S }             match F .. with Some a_x => REST | None => S end
+//   f(args) for a plain function f of the package      INLINED: let-bound parameters around its body
 //   struct receivers and parameters (WayNode, Member): the fields that the function, or the
 //                                                   methods it calls on the same value, read
 //                                                   become separate parameters a_<x>_<Field>
@@ -45,6 +46,10 @@ type tr2 struct {
 	binds   [][2]string
 	nbind   int
 	pmemo   map[string]int // partiality memo: 0 unknown, 1 in progress, 2 no, 3 yes
+	// inlining: the helpers being inlined (recursion guard); prefix: name prefix of the local
+	// variables of an inlined body
+	inlining map[string]bool
+	prefix   string
 }
 
 func recvTypeName(t types.Type) (string, bool) {
@@ -376,9 +381,80 @@ func (t *tr2) expr(e ast.Expr) (string, error) {
 			}
 			return call, nil
 		}
+		if id, ok := x.Fun.(*ast.Ident); ok {
+			if fn, ok := t.p.Info.Uses[id].(*types.Func); ok && fn.Pkg() == t.p.Types {
+				return t.inlineCall(x, id.Name)
+			}
+		}
 		return "", fmt.Errorf("%s: unsupported call", t.p.Pos(e))
 	}
 	return "", fmt.Errorf("%s: unsupported expression %T", t.p.Pos(e), e)
+}
+
+// inlineCall translates a call of a plain (receiver-less) function of the package by INLINING
+// its body: the parameters are let-bound to the translated arguments.  So a helper such as
+// packRef(typeBits, ref) leaves no new name in the generated file, and the semantic lemmas of
+// the Coq side (which unfold the generated definitions and reduce the lets) see through it.
+func (t *tr2) inlineCall(x *ast.CallExpr, name string) (string, error) {
+	fd, ok := t.decls[name]
+	if !ok || fd.Body == nil || fd.Recv != nil {
+		return "", fmt.Errorf("%s: function %s has no translatable declaration", t.p.Pos(x), name)
+	}
+	if t.inlining[name] {
+		return "", fmt.Errorf("%s: recursive helper %s", t.p.Pos(x), name)
+	}
+	rts := t.resultTypes(fd)
+	if len(rts) != 1 {
+		return "", fmt.Errorf("%s: helper %s does not return exactly one value", t.p.Pos(x), name)
+	}
+	if _, ok := t.scalarType(rts[0]); !ok {
+		return "", fmt.Errorf("%s: helper %s returns an unsupported type", t.p.Pos(x), name)
+	}
+	var args []string
+	for _, a := range x.Args {
+		v, err := t.expr(a)
+		if err != nil {
+			return "", err
+		}
+		args = append(args, v)
+	}
+	t.nbind++
+	tag := fmt.Sprintf("I%d_", t.nbind)
+	sub := &tr2{p: t.p, decls: t.decls, env: map[string]string{}, used: t.used, pmemo: t.pmemo,
+		inlining: map[string]bool{name: true}, nbind: t.nbind, prefix: tag}
+	for k := range t.inlining {
+		sub.inlining[k] = true
+	}
+	sub.strRe = isStringType(rts[0])
+	sub.panRe = !sub.strRe && t.partial(name)
+	var names []string
+	for _, f := range fd.Type.Params.List {
+		ft := t.p.Info.Types[f.Type].Type
+		if _, ok := t.scalarType(ft); !ok {
+			return "", fmt.Errorf("%s: helper %s has an unsupported parameter type", t.p.Pos(x), name)
+		}
+		for _, n := range f.Names {
+			sub.env[n.Name] = tag + n.Name
+			names = append(names, tag+n.Name)
+		}
+	}
+	if len(names) != len(args) {
+		return "", fmt.Errorf("%s: helper %s: argument count", t.p.Pos(x), name)
+	}
+	body, err := sub.stmts(fd.Body.List)
+	t.nbind = sub.nbind
+	if err != nil {
+		return "", fmt.Errorf("helper %s: %v", name, err)
+	}
+	for i := len(names) - 1; i >= 0; i-- {
+		body = fmt.Sprintf("(let %s := %s in %s)", names[i], args[i], body)
+	}
+	if sub.panRe {
+		v := t.fresh()
+		t.binds = append(t.binds, [2]string{v, body})
+		return v, nil
+	}
+	return body, nil
 }
 
 // methodCall builds the Coq application for a call of a method of this package.
@@ -617,7 +693,12 @@ func endsInReturnOrPanic(l []ast.Stmt) bool {
 	return false
 }
 
-func (t *tr2) coqName(x string) string { return "a_" + x }
+func (t *tr2) coqName(x string) string {
+	if t.prefix != "" {
+		return t.prefix + x
+	}
+	return "a_" + x
+}
 
 func (t *tr2) stmts(l []ast.Stmt) (string, error) {
 	if len(l) == 0 {
